@@ -170,6 +170,24 @@ fn main() {
 			};
 			h.go(&sys, &Limits::depth(if thorough { 8 } else { 6 }).wall_secs(120), true);
 		}
+		// wider period types: the windowless recurrences take ANY length, the largest value of the type included
+		if (PeriodType::MAX as u64) > 255 && ["EMA", "DMA", "TMA", "DEMA", "TEMA", "RMA"].contains(&name) {
+			let sys = Flat(MSys {
+				name: format!("{name}/deviation/largest-lengths-of-the-period-type"),
+				spec: spec(name),
+				params: [PeriodType::MAX, PeriodType::MAX - 1, PeriodType::MAX / 2 + 1].iter().map(|n| Params::N(*n)).collect(),
+				v0s: vals(&[1.0, -3.0]),
+				alphabet: vals(&[0.0, 1.0, -3.0, alpha::big() as ValueType]),
+				mk_ref: mk_ref(name),
+				shape: Shape::Flat,
+				span: |_| 8,
+				keyed: false,
+				positions: Some(|_| vec![0, 1, 2, 5]),
+				check_peek: true,
+				extra: None,
+			});
+			h.go(&sys, &Limits::deviation(2, 40).wall_secs(120), true);
+		}
 		let sys = Flat(MSys {
 			name: format!("{name}/deviation/n=1..={maxn}"),
 			spec: spec(name),
